@@ -227,8 +227,21 @@ def analyse_engine(ctx: Ctx, ci, f, cfg, in_loop):
     if not rec:
         obs.append(ctx.ob("R11.3", f, step_node.stmt, status=INCONCLUSIVE, detail=f"{ci.name}: no per-generation record found in the loop", construct="record"))
     for b, arg in rec:
-        ok = isinstance(arg, ast.Name) and arg.id in results
-        obs.append(ctx.ob("R11.3", f, b.stmt, status=OK if ok else VIOLATION, detail="the recorded generation is the step result" if ok else f"{ci.name}: the generation recorded is `{norm(arg)}`, not the step's result {sorted(results)}", construct=b.label))
+        ok = isinstance(arg, ast.Name) and (arg.id in results or arg.id in derived)
+        stale = False
+        if ok:
+            # flow-sensitive: within the iteration the recorded name must have been (re)assigned from this generation's step
+            # result before the record; a path loop-head -> record that passes no such assignment records an older generation
+            fresh = [x for x in body if x in [sn for sn, _ in in_loop] and (arg.id in _targets(x.ast) or not _targets(x.ast))] + [
+                x for x in body if arg.id in _targets(x.ast) and isinstance(x.ast, (ast.Assign, ast.AnnAssign)) and x.ast.value is not None and (_names(x.ast.value) & (results | derived))
+            ]
+            lag = None if b in fresh else cfg.find_path(head, b, avoid=lambda x: x in fresh)
+            if lag is not None:
+                ok, stale = False, True
+        # positive evidence of a wrong record: the parents / the loop-entry population are recorded instead of the step result
+        stale = stale or (isinstance(arg, ast.Name) and not ok and any(isinstance(d, ast.Attribute) and d.attr in ("current_population",) for d in defs_all.get(arg.id, []) if not isinstance(d, ast.AugAssign)))
+        filtered = isinstance(arg, (ast.ListComp, ast.Subscript)) and bool({x.id for x in ast.walk(arg) if isinstance(x, ast.Name)} & (results | derived))
+        obs.append(ctx.ob("R11.3", f, b.stmt, status=OK if ok else VIOLATION if (stale or filtered) else INCONCLUSIVE, detail="the recorded generation is the step result" if ok else f"{ci.name}: the generation recorded is `{norm(arg)}`, not the step's result {sorted(results)}", construct=b.label))
     return obs
 
 
